@@ -1386,8 +1386,14 @@ func (client *client) pollInflights() (cont bool, err error) {
 	if err != nil || len(elems) == 0 {
 		return false, err
 	}
+	// Mark the packet ids (of PUBLISH and PUBREL alike: a PUBREL id stays in use until PUBCOMP) under the
+	// limiter lock, but write without it: client.write blocks while the peer does not read, and the limiter
+	// lock is taken under srv.mu (drop notifications), so holding it here would stall the whole broker.
 	client.pl.lock()
-	defer client.pl.unlock()
+	for _, v := range elems {
+		client.pl.markUsedLocked(v.MessageWithID.ID())
+	}
+	client.pl.unlock()
 	for _, v := range elems {
 		id := v.MessageWithID.ID()
 		switch m := v.MessageWithID.(type) {
@@ -1396,11 +1402,8 @@ func (client *client) pollInflights() (cont bool, err error) {
 			// https://docs.oasis-open.org/mqtt/mqtt/v5.0/os/mqtt-v5.0-os.html#_Subscription_Options
 			// The Server need not use the same set of Subscription Identifiers in the retransmitted PUBLISH packet.
 			m.SubscriptionIdentifier = nil
-			client.pl.markUsedLocked(id)
 			client.write(client.publishWithRemainingExpiry(time.Now(), v, m.Message))
 		case *queue.Pubrel:
-			// the id stays in use until PUBCOMP
-			client.pl.markUsedLocked(id)
 			client.write(&packets.Pubrel{PacketID: id})
 		}
 	}
